@@ -1,75 +1,89 @@
 (* C15 - "Whenever a mutator of a task, task list or WBS raises, every observable relation and attribute of
    every task and WBS is exactly what it was before the call."
 
-   Statement file (the list was written as Graph/StmtC15.v by the C15 proof task; the premise
-   "children.remove keeps WF" of the remove_all statements is discharged in Graph/StepProofs.v section 6).
-   A state is the whole observable graph (every field of every task, the WBS root lists), so
+   Statement file.  A state is the whole observable graph (every field of every task, the WBS root lists), so
    "fst (step s o) = s" is the property text for the call o.
-   Summary: 18 kinds atomic on ALL states (C15_atomic); 21 kinds atomic on well-formed states
-   (C15_atomic_wf: + the three remove_all loops, which never raise there); 3 kinds REFUTED (finding F10:
-   list-level << / >>, bulk parent assignment, the constructor with relation arguments). *)
+   Summary: 21 kinds atomic on ALL states (C15_atomic: every setter validates before it writes; the three
+   operations that call several setters in a row - list-level << / >>, bulk parent assignment, the constructor
+   with relation arguments - undo the calls that returned when a later one raises); ALL 24 kinds atomic on
+   well-formed states, hence on every state reached by a public history (C15_atomic_every_op, C15_atomic_reach:
+   the three remove_all loops never raise there).  The three sequences WITHOUT the undo - the code before the
+   repair, finding F10 - are refuted (the C15_refuted theorems). *)
 From PJ Require Import Base.Prelude Graph.Model Graph.Invariant Graph.OracleProofs Graph.AtomicProofs Graph.AtomicLoops.
 From PJ Require Graph.StepProofs.
 Local Open Scope nat_scope.
 
-(* ---- proved for ALL states and arguments: 18 of the 24 operation kinds ---- *)
+(* ---- proved for ALL states and arguments: 21 of the 24 operation kinds ---- *)
 Theorem C15_atomic : forall s o, atomic_op o = true -> snd (step s o) <> OK -> fst (step s o) = s.
 Proof. exact AtomicProofs.C15_atomic. Qed.
 
 Theorem C15_atomic_core : forall s o, atomic_op o = true -> snd (step' s o) <> OK -> fst (step' s o) = s.
 Proof. exact AtomicProofs.C15_atomic_core. Qed.
 
-(* the kinds not covered by C15_atomic: three refuted (below), three loops (partial, below) *)
+(* the kinds not covered by C15_atomic: the three remove_all loops (atomic on well-formed states, below) *)
 Theorem C15_atomic_op_false_kinds : forall o, atomic_op o = false ->
-  (exists d ts vs, o = LstShift d ts vs) \/ (exists ts p, o = LstSetParent ts p) \/
-  (exists i nm p ch su pr, o = NewTaskRel i nm p ch su pr) \/
   (exists x ids, o = ChRemoveAll x ids) \/ (exists d t ids, o = LnRemoveAll d t ids) \/
   (exists w ids, o = WbsRemoveAll w ids).
 Proof. exact AtomicProofs.atomic_op_false_kinds. Qed.
 
-(* ---- refuted (finding F10): list-level << / >>, bulk attribute assignment, constructor with relations ---- *)
-Theorem C15_refuted_lst_shift : exists s o, snd (step s o) <> OK /\ fst (step s o) <> s.
+(* what "undo" means: the sequence of calls either returned, and its result is the result, or it raised and the
+   state is the one before the first call, with the same exception *)
+Theorem C15_all_or_nothing : forall s r,
+  (snd r = OK /\ all_or_nothing s r = r) \/ (snd r <> OK /\ all_or_nothing s r = (s, snd r)).
+Proof. exact AtomicProofs.all_or_nothing_cases. Qed.
+
+Theorem C15_lst_shift_is : forall d s ts vs, lst_shift d s ts vs = all_or_nothing s (lst_shift_seq d s ts vs).
+Proof. reflexivity. Qed.
+Theorem C15_lst_set_parent_is : forall s ts p, lst_set_parent s ts p = all_or_nothing s (lst_set_parent_seq s ts p).
+Proof. reflexivity. Qed.
+Theorem C15_new_task_rel_is : forall s i nm p ch su pr,
+  new_task_rel s i nm p ch su pr = all_or_nothing s (new_task_rel_seq s i nm p ch su pr).
+Proof. reflexivity. Qed.
+
+(* ---- refuted before the repair (finding F10): the same three operations as bare sequences of setter calls
+   (step_seq), i.e. list-level << / >>, bulk parent assignment, constructor with relations without the undo ---- *)
+Theorem C15_refuted_lst_shift : exists s o, snd (step_seq s o) <> OK /\ fst (step_seq s o) <> s.
 Proof. exact AtomicProofs.C15_refuted_lst_shift. Qed.
 
 Theorem C15_refuted_lst_shift_detail :
-  snd (step wit_lst_shift_pre wit_lst_shift_op) = Err /\
+  snd (step_seq wit_lst_shift_pre wit_lst_shift_op) = Err /\
   preds (get (hp wit_lst_shift_pre) 1) = [] /\
-  preds (get (hp (fst (step wit_lst_shift_pre wit_lst_shift_op))) 1) = [2] /\
-  succs (get (hp (fst (step wit_lst_shift_pre wit_lst_shift_op))) 2) = [1].
+  preds (get (hp (fst (step_seq wit_lst_shift_pre wit_lst_shift_op))) 1) = [2] /\
+  succs (get (hp (fst (step_seq wit_lst_shift_pre wit_lst_shift_op))) 2) = [1].
 Proof. exact AtomicProofs.C15_refuted_lst_shift_detail. Qed.
 
-Theorem C15_refuted_lst_set_parent : exists s o, snd (step s o) <> OK /\ fst (step s o) <> s.
+Theorem C15_refuted_lst_set_parent : exists s o, snd (step_seq s o) <> OK /\ fst (step_seq s o) <> s.
 Proof. exact AtomicProofs.C15_refuted_lst_set_parent. Qed.
 
 Theorem C15_refuted_lst_set_parent_detail :
-  snd (step wit_lst_set_parent_pre wit_lst_set_parent_op) = Err /\
+  snd (step_seq wit_lst_set_parent_pre wit_lst_set_parent_op) = Err /\
   kids (get (hp wit_lst_set_parent_pre) 0) = [1; 2] /\
-  kids (get (hp (fst (step wit_lst_set_parent_pre wit_lst_set_parent_op))) 0) = [2] /\
-  kids (get (hp (fst (step wit_lst_set_parent_pre wit_lst_set_parent_op))) 2) = [1] /\
-  par (get (hp (fst (step wit_lst_set_parent_pre wit_lst_set_parent_op))) 1) = Some 2.
+  kids (get (hp (fst (step_seq wit_lst_set_parent_pre wit_lst_set_parent_op))) 0) = [2] /\
+  kids (get (hp (fst (step_seq wit_lst_set_parent_pre wit_lst_set_parent_op))) 2) = [1] /\
+  par (get (hp (fst (step_seq wit_lst_set_parent_pre wit_lst_set_parent_op))) 1) = Some 2.
 Proof. exact AtomicProofs.C15_refuted_lst_set_parent_detail. Qed.
 
-Theorem C15_refuted_new_task_rel : exists s o, snd (step s o) <> OK /\ fst (step s o) <> s.
+Theorem C15_refuted_new_task_rel : exists s o, snd (step_seq s o) <> OK /\ fst (step_seq s o) <> s.
 Proof. exact AtomicProofs.C15_refuted_new_task_rel. Qed.
 
 Theorem C15_refuted_new_task_rel_detail :
-  snd (step wit_new_task_rel_pre wit_new_task_rel_op) = Err /\
+  snd (step_seq wit_new_task_rel_pre wit_new_task_rel_op) = Err /\
   kids (get (hp wit_new_task_rel_pre) 0) = [] /\
-  kids (get (hp (fst (step wit_new_task_rel_pre wit_new_task_rel_op))) 0) = [1].
+  kids (get (hp (fst (step_seq wit_new_task_rel_pre wit_new_task_rel_op))) 0) = [1].
 Proof. exact AtomicProofs.C15_refuted_new_task_rel_detail. Qed.
 
-(* what does hold for the three kinds: a raising call leaves the COMPLETE effect of the element calls
+(* what did hold for the bare sequences: a raising call leaves the COMPLETE effect of the element calls
    that returned (every element call is atomic) *)
 Theorem C15_lst_shift_partial : forall d s ts vs,
-  snd (lst_shift d s ts vs) <> OK ->
+  snd (lst_shift_seq d s ts vs) <> OK ->
   exists done t rest, ts = done ++ t :: rest /\
-    snd (lst_shift d s done vs) = OK /\ fst (lst_shift d s ts vs) = fst (lst_shift d s done vs).
+    snd (lst_shift_seq d s done vs) = OK /\ fst (lst_shift_seq d s ts vs) = fst (lst_shift_seq d s done vs).
 Proof. exact AtomicProofs.C15_lst_shift_partial. Qed.
 
 Theorem C15_lst_set_parent_partial : forall s ts p,
-  snd (lst_set_parent s ts p) <> OK ->
+  snd (lst_set_parent_seq s ts p) <> OK ->
   exists done t rest, ts = done ++ t :: rest /\
-    snd (lst_set_parent s done p) = OK /\ fst (lst_set_parent s ts p) = fst (lst_set_parent s done p).
+    snd (lst_set_parent_seq s done p) = OK /\ fst (lst_set_parent_seq s ts p) = fst (lst_set_parent_seq s done p).
 Proof. exact AtomicProofs.C15_lst_set_parent_partial. Qed.
 
 (* ---- the remove_all loops: full statements, proved parts ---- *)
@@ -164,20 +178,13 @@ Theorem C15_remove_all_never_raises : forall s, WF s ->
   (forall w ids, snd (wbs_remove_all s w ids) = OK).
 Proof. exact StepProofs.remove_all_never_raises_wf. Qed.
 
-(* all kinds but the three refuted ones (21 of 24), on well-formed states; with C01_reach: on every state
-   reached by a public history *)
-Theorem C15_atomic_wf :
-  forall s o, WF s -> atomic_op_wf o = true -> snd (step s o) <> OK -> fst (step s o) = s.
-Proof. exact StepProofs.C15_atomic_wf_all. Qed.
+(* ALL 24 kinds on well-formed states; with C01_reach: on every state reached by a public history *)
+Theorem C15_atomic_every_op : forall s o, WF s -> snd (step s o) <> OK -> fst (step s o) = s.
+Proof. exact StepProofs.C15_atomic_every_op. Qed.
 
 Theorem C15_atomic_reach : forall ops o, StepProofs.pub_run init ops ->
-  atomic_op_wf o = true -> snd (step (run init ops) o) <> OK -> fst (step (run init ops) o) = run init ops.
-Proof. exact StepProofs.C15_atomic_reach. Qed.
-
-Theorem C15_atomic_wf_false_kinds : forall o, atomic_op_wf o = false ->
-  (exists d ts vs, o = LstShift d ts vs) \/ (exists ts p, o = LstSetParent ts p) \/
-  (exists i nm p ch su pr, o = NewTaskRel i nm p ch su pr).
-Proof. exact AtomicLoops.atomic_op_wf_false_kinds. Qed.
+  snd (step (run init ops) o) <> OK -> fst (step (run init ops) o) = run init ops.
+Proof. exact StepProofs.C15_atomic_reach_every_op. Qed.
 
 (* ---- non-vacuity ---- *)
 (* a reachable, well-formed state: one WBS, three tasks (ids 1, 2, 1), task 2 below task 1, a dependency *)
@@ -218,17 +225,22 @@ Example c15_loop_can_raise :
   snd (ch_remove_all bad 0 [1%Z]) = Err /\ fst (ch_remove_all bad 0 [1%Z]) = bad /\ wf_b bad = false.
 Proof. vm_compute. auto. Qed.
 
-(* the list-level loop is NOT atomic (finding F10): the first element is re-parented before the second is rejected *)
-Example C15_bulk_parent_not_atomic :
+(* the list-level loop: the first element is accepted, the second rejected - nothing is left of the first
+   (before the repair the first element stayed re-parented: C15_refuted_lst_set_parent) *)
+Example C15_bulk_parent_atomic :
   let s := run init [NewTask 0%Z None [] None; NewTask 1%Z None [] None; NewTask 2%Z None [] None; NewTask 2%Z None [] None;
                      SetChildren 0 [Some 1; Some 2]] in
   let r := step s (LstSetParent [1; 2] (Some 3)) in
-  outcome_code (snd r) = 1 /\ par (get (hp (fst r)) 1) = Some 3 /\ par (get (hp s) 1) = Some 0.
+  outcome_code (snd r) = 1 /\ fst r = s /\ par (get (hp (fst (step_seq s (LstSetParent [1; 2] (Some 3))))) 1) = Some 3.
 Proof. vm_compute. repeat split; reflexivity. Qed.
 
 Print Assumptions C15_atomic.
 Print Assumptions C15_atomic_core.
 Print Assumptions C15_atomic_op_false_kinds.
+Print Assumptions C15_all_or_nothing.
+Print Assumptions C15_lst_shift_is.
+Print Assumptions C15_lst_set_parent_is.
+Print Assumptions C15_new_task_rel_is.
 Print Assumptions C15_refuted_lst_shift.
 Print Assumptions C15_refuted_lst_shift_detail.
 Print Assumptions C15_refuted_lst_set_parent.
@@ -253,11 +265,10 @@ Print Assumptions C15_ch_remove_keeps_WF.
 Print Assumptions C15_ch_remove_all.
 Print Assumptions C15_wbs_remove_all.
 Print Assumptions C15_remove_all_never_raises.
-Print Assumptions C15_atomic_wf.
+Print Assumptions C15_atomic_every_op.
 Print Assumptions C15_atomic_reach.
-Print Assumptions C15_atomic_wf_false_kinds.
 Print Assumptions c15_demo_WF.
 Print Assumptions c15_demo_rejected.
 Print Assumptions c15_demo_loops_accepted.
 Print Assumptions c15_loop_can_raise.
-Print Assumptions C15_bulk_parent_not_atomic.
+Print Assumptions C15_bulk_parent_atomic.
